@@ -353,8 +353,9 @@ pub struct ExprCfg {
 impl Default for ExprCfg {
     fn default() -> Self {
         ExprCfg {
-            fn_names: vec!["fa".into(), "fb".into(), "nofn".into()],
-            sym_names: vec!["sa".into(), "sb".into(), "nosym".into()],
+            // duplicates weight the choice: unknown names are rare so that deep trees evaluate
+            fn_names: ["fa", "fb", "fa", "fb", "fa", "fb", "fa", "nofn"].iter().map(|s| s.to_string()).collect(),
+            sym_names: ["sa", "sb", "sa", "sb", "sa", "sb", "sa", "nosym"].iter().map(|s| s.to_string()).collect(),
             typed_weight: 5,
         }
     }
@@ -374,10 +375,10 @@ fn leaf(d: &mut Dec, want: Ty, cfg: &ExprCfg) -> Expr {
     match d.below(8) {
         0..=3 => Expr::Value(gen_value_of(d, want, 1)),
         4 | 5 => Expr::reff(field_of(want, d)),
-        6 => match d.below(4) {
+        6 => match d.below(8) {
             0 => Expr::reff("facts"),
             1 => Expr::reff("missing"),
-            2 => Expr::symbol(d.pick(&cfg.sym_names)),
+            2 | 3 | 4 => Expr::symbol(d.pick(&cfg.sym_names)),
             _ => Expr::index(Expr::reff("vm"), Index::Map(d.pick(&KEYS).to_string())),
         },
         _ => Expr::Value(gen_value_of(d, want, 2)),
@@ -571,4 +572,89 @@ pub fn gen_case(bytes: &[u8], depth: u32, cfg: &ExprCfg) -> (Expr, Value) {
     let e = gen_expr(&mut d, want, depth, cfg);
     let facts = gen_facts(&mut d);
     (e, facts)
+}
+
+// ------------------------------------------------------------------------------------------
+// the parser's image: trees that `Expr::parse` can produce (domain of C07 / C08 / C14 / C16)
+
+pub const IMAGE_NAMES: [&str; 20] = [
+    "a", "b", "abc", "x1", "a_b", "i", "f", "d", "inty", "i5x", "f1e", "truex", "nonex", "facts", "Z9", "in_", "ifx",
+    "orx", "e", "x",
+];
+
+pub fn image_name(d: &mut Dec) -> String {
+    d.pick(&IMAGE_NAMES).to_string()
+}
+
+pub fn image_literal(d: &mut Dec) -> Value {
+    match d.below(8) {
+        0 | 1 => Value::Int(gen_int(d)),
+        2 => {
+            let f = gen_float(d);
+            Value::Float(if f.is_nan() { f64::INFINITY } else { f })
+        }
+        3 => Value::Decimal(gen_decimal(d)),
+        4 => Value::String(gen_string(d)),
+        5 => Value::Bool(d.bool()),
+        6 => Value::None,
+        _ => Value::Int(d.below(10) as i128),
+    }
+}
+
+pub fn gen_image(d: &mut Dec, depth: u32) -> Expr {
+    if depth == 0 || d.exhausted() {
+        return match d.below(4) {
+            0 => Expr::reff(image_name(d)),
+            1 => Expr::symbol(image_name(d)),
+            _ => Expr::Value(image_literal(d)),
+        };
+    }
+    match d.below(48) {
+        0 | 1 => Expr::Value(image_literal(d)),
+        2 => Expr::reff(image_name(d)),
+        3 => Expr::symbol(image_name(d)),
+        4 | 5 => {
+            let a = gen_image(d, depth - 1);
+            Expr::func(image_name(d), a)
+        }
+        6 | 7 | 8 => {
+            let a = gen_image(d, depth - 1);
+            if d.bool() {
+                Expr::index(a, Index::Map(image_name(d)))
+            } else {
+                let i = match d.below(4) {
+                    0 => usize::MAX,
+                    1 => d.u64() as usize,
+                    _ => d.below(12),
+                };
+                Expr::index(a, Index::Vec(i))
+            }
+        }
+        9 | 10 | 11 => {
+            let c = gen_image(d, depth - 1);
+            let t = gen_image(d, depth - 1);
+            let f = gen_image(d, depth - 1);
+            Expr::iif(c, t, f)
+        }
+        12 | 13 => {
+            let n = d.below(4);
+            Expr::Vec((0..n).map(|_| gen_image(d, depth - 1)).collect())
+        }
+        14 | 15 => {
+            let n = d.below(4);
+            Expr::Map((0..n).map(|_| (image_name(d), gen_image(d, depth - 1))).collect())
+        }
+        k => {
+            let kind = ALL_KINDS[(k - 16) as usize % ALL_KINDS.len()];
+            // weight binary kinds a bit more: precedence interactions live there
+            let kind = if d.below(3) == 0 { *d.pick(&crate::data::BINARY_KINDS[..]) } else { kind };
+            if crate::data::UNARY_KINDS.contains(&kind) {
+                mk1(kind, gen_image(d, depth - 1))
+            } else {
+                let a = gen_image(d, depth - 1);
+                let b = gen_image(d, depth - 1);
+                mk2(kind, a, b)
+            }
+        }
+    }
 }
